@@ -37,7 +37,7 @@ def r1(ctx):
     isreq = fact_call(r'CsptpMessage::is_request$', True, [r'^\(CsptpMessage::deserialize\(packet\) as Ok\)\.0$'])
     built = fact_is(r'^StateMutex::with_ref\(manager\.state, closure:server::handle_packet::\{closure#0\}::\{closure#0\}\)$', ['Ok'])
     ser1 = fact_is(r'^Message::serialize\(CsptpMessage::deref\(\(StateMutex::with_ref\(.*\) as Ok\)\.0\), ', ['Ok'])
-    sent = fact_is(r'^result$', ['Ok'], names=True)
+    sent = fact_is(r'^\(Future::poll\(.*ServerSocket::send_event\(.*\) as Ready\)\.0$', ['Ok'])
     fu = fact_is(r'^CsptpMessage::new_follow_up\(', ['Ok'])
     ser2 = fact_is(r'^Message::serialize\(CsptpMessage::deref\(\(CsptpMessage::new_follow_up\(.*\) as Ok\)\.0\), ', ['Ok'])
     se = one(b.calls(r'ServerSocket::send_event$'), 'send_event')
@@ -61,30 +61,28 @@ def r1(ctx):
     for send, idx in ((se, 0), (sg, 1)):
         if len(ser_calls) == 2:
             sc = sorted(ser_calls, key=lambda c: c.bb)[idx]
-            buf_l = b.call_args(sc)[1]
-            sent_l = b.call_args(send)[1]
-            same = re.match(r'^array::index\((\w+), ', N(sent_l)) and re.match(r'^array::index\((\w+), ', N(sent_l)).group(1) == N(buf_l)
-            ctx.check('%s|buffer-written-by-own-serialize' % short_name(b.callee(send)['def']).split('::')[-1], bool(same) and blocks_must_pass_block(b, send.bb, [sc.bb]), 'send uses %s, serialize wrote %s' % (N(sent_l), N(buf_l)), send.where(), sample=N(buf_l))
+            l1 = root_local(b, sc.data['args'][1])
+            l2 = root_local(b, send.data['args'][1])
+            ctx.check('%s|buffer-written-by-own-serialize' % short_name(b.callee(send)['def']).split('::')[-1], l1 is not None and l1 == l2 and blocks_must_pass_block(b, send.bb, [sc.bb]),
+                      'the datagram is sent from local #%s but its serialize call wrote local #%s' % (l2, l1), send.where(), sample={'serialize': l1, 'send': l2})
     nf = one(b.calls(r'CsptpMessage::new_follow_up$'), 'new_follow_up')
     fa = [S(x) for x in b.call_args(nf)]
     ctx.check('new_follow_up|response', re.match(r'^\(StateMutex::with_ref\(.*\) as Ok\)\.0$', fa[0]) is not None, 'follow-up built from %s' % N(b.call_args(nf)[0]), nf.where(), sample=N(b.call_args(nf)[0]))
-    ctx.check('new_follow_up|send-time', re.search(r'ServerSocket::send_event\(', fa[1]) is not None and re.search(r' as Ok\)\.0$', fa[1]) is not None and N(b.call_args(nf)[1]) == 'send_timestamp',
-              'follow-up timestamp %s' % N(b.call_args(nf)[1]), nf.where(), sample=N(b.call_args(nf)[1]))
+    ctx.check('new_follow_up|send-time', re.match(r'^\(\(Future::poll\(.*ServerSocket::send_event\(.*\) as Ready\)\.0 as Ok\)\.0$', fa[1]) is not None,
+              'follow-up timestamp %s' % fa[1][-120:], nf.where(), sample=fa[1][-60:])
     cl = P.body(S_ + 'handle_packet::{closure#0}::{closure#0}')
     nr = one(cl.calls(r'CsptpMessage::new_response$'), 'new_response')
-    ra = [N(x) for x in cl.call_args(nr)]
-    ctx.check('new_response|arguments', ra[1:4] == ['message', 'timestamp', 'Option::None{}'], 'new_response(.., %s)' % ra[1:4], nr.where(), sample=ra[1:4])
-    cap = S(cl.call_args(nr)[1]), S(cl.call_args(nr)[2])
-    ctx.check('new_response|request-is-parsed-message', re.search(r'\^?message', cap[0]) is not None and re.search(r'\^?timestamp', cap[1]) is not None, 'captures %s' % (cap,), sample=list(cap))
-    ms = [S(b.local_term(i)) for i, l in enumerate(b.locals) if l.get('name') == 'message']
-    ctx.check('message|is-parse-result', ms == ['(CsptpMessage::deserialize(packet) as Ok).0'], 'message = %s' % ms, sample=ms)
+    ra = [S(x) for x in cl.call_args(nr)]
+    ctx.check('new_response|arguments', ra[1:4] == ['(CsptpMessage::deserialize(packet) as Ok).0', 'timestamp', 'Option::None{}'],
+              'new_response(.., %s): expected the parsed request, the reception timestamp parameter and no send timestamp' % ra[1:4], nr.where(), sample=ra[1:4])
     sv = P.body(S_ + 'serve::{closure#0}')
     hp = one(sv.calls(r'server::handle_packet$'), 'handle_packet call in serve')
-    ha = [N(x) for x in sv.call_args(hp)]
-    ctx.check('serve|handle_packet-arguments', ha[2:] == ['array::index(buf, Range{start: 0, end: bytes_read})', 'remote_addr', 'local_addr', 'timestamp'], 'handle_packet(.., %s)' % ha[2:], hp.where(), sample=ha[2:])
-    srcs = {n: S(sv.local_term(i)) for i, l in enumerate(sv.locals) for n in [l.get('name')] if n in ('bytes_read', 'remote_addr', 'local_addr', 'timestamp')}
-    ok = len(srcs) == 4 and all(re.search(r' as Some\)\.0 as Ok\)\.0\.%s$' % n, v) for n, v in srcs.items()) and len({re.sub(r'\.\w+$', '', v) for v in srcs.values()}) == 1
-    ctx.check('serve|one-recv-result', ok, 'sources %s' % {k: v[-50:] for k, v in srcs.items()}, sample=sorted(srcs))
+    ha = [S(x) for x in sv.call_args(hp)]
+    mm = re.match(r'^array::index\(\[0; \d+\], Range\{start: 0, end: (?P<r>.*)\.bytes_read\}\)$', ha[2], re.S)
+    rr = mm.group('r') if mm else None
+    ok = rr is not None and re.search(r' as Some\)\.0 as Ok\)\.0$', rr) is not None and ha[3:] == [rr + '.remote_addr', rr + '.local_addr', rr + '.timestamp']
+    ctx.check('serve|handle_packet-arguments', ok, 'handle_packet is not given the received prefix, remote address, local address and timestamp of one recv result: %s' % [x[-60:] for x in ha[2:]],
+              hp.where(), sample=[x[-40:] for x in ha[2:]])
 
 
 def hdr_fields(b, s):
@@ -160,5 +158,43 @@ def r3(ctx):
     panic.property_rule(ctx, 'C45', 'C45-R3')
 
 
-RULES = [r1, r2, r3]
-FLOORS = {'C45-R1': 25, 'C45-R2': 25}
+def wellformed_gate(ctx):
+    """CsptpMessage::deserialize is the 'well-formed CSPTP message' gate used by both the server and the client."""
+    P = ctx.P
+    b = P.body(M + 'CsptpMessage::deserialize')
+    MSGV = r'\(Result::branch\(Message::deserialize\(buffer\)\) as Continue\)\.0'
+    oks = [(s, v) for s, v in ret_assigns(b) if v.startswith('Result::Ok')]
+    ctx.check('deserialize|ok-sites', len(oks) == 1 and re.match(r'^Result::Ok\{0: CsptpMessage\{message: %s\}\}$' % MSGV, oks[0][1]) is not None, 'Ok results %s' % [v[:100] for _, v in oks], sample=len(oks))
+    cnt = lambda k: r'Filter::count\(Iterator::filter\(TlvSet::tlvs\(%s\.suffix\), closure:messages::\{impl#0\}::deserialize::\{closure#%d\}\)\)' % (MSGV, k)
+    val = lambda k: r'Iterator::count\(Iterator::filter_map\(TlvSet::tlvs\(%s\.suffix\), closure:messages::\{impl#0\}::deserialize::\{closure#%d\}\)\)' % (MSGV, k)
+    follow = fact_is('^' + MSGV + r'\.body$', ['FollowUp'])
+    for s, v in oks:
+        ctx.guard(b, s, 'parsed', fact_is(r'^Result::branch\(Message::deserialize\(buffer\)\)$', 'Continue'), key='deserialize|Ok|ptp-message-parsed')
+        ctx.guard(b, s, 'sdo-id', fact_cmp('Eq', '^' + MSGV + r'\.header\.sdo_id$', r'^Result::unwrap\(SdoId::try_from\(768\)\)$'), key='deserialize|Ok|sdo-id-0x300')
+        ctx.guard(b, s, 'major', fact_cmp('Eq', r'^PtpVersion::major\(%s\.header\.version\)$' % MSGV, r'^2$'), key='deserialize|Ok|version-major-2')
+        ctx.guard(b, s, 'kind', fact_is('^' + MSGV + r'\.body$', ['Sync', 'FollowUp']), key='deserialize|Ok|sync-or-follow-up')
+        ctx.guard(b, s, 'one-tlv', any_of(follow, fact_cmp('Eq', r'^\(%s \+ %s\)$' % (cnt(0), cnt(2)), r'^1$')), key='deserialize|Ok|sync-has-exactly-one-request-or-response-tlv')
+        ctx.guard(b, s, 'request-valid', any_of(follow, fact_cmp('Eq', '^' + cnt(0) + '$', '^' + val(1) + '$')), key='deserialize|Ok|request-tlvs-valid')
+        ctx.guard(b, s, 'response-valid', any_of(follow, fact_cmp('Eq', '^' + cnt(2) + '$', '^' + val(3) + '$')), key='deserialize|Ok|response-tlvs-valid')
+    tests = {}
+    for i, x in enumerate(P.closures_of(b)):
+        tests[i] = [v for _, v in ret_assigns(x)]
+    want = {0: ['(tlv.tlv_type == TlvType::CsptpRequest{})'], 2: ['(tlv.tlv_type == TlvType::CsptpResponse{})']}
+    for k, w in want.items():
+        ctx.check('deserialize|closure#%d' % k, tests.get(k) == w, 'TLV selector #%d is %s' % (k, tests.get(k)), sample=tests.get(k))
+    for k, ty in ((1, 'CsptpRequestTlv'), (3, 'CsptpResponseTlv')):
+        ok = len(tests.get(k, [])) == 1 and ty in tests[k][0]
+        ctx.check('deserialize|closure#%d' % k, ok, 'TLV validator #%d is %s' % (k, tests.get(k)), sample=tests.get(k))
+    mk = [x.npath for x in P.bodies.values() if x.raw['promoted'] is None and x.krate == 'statime_csptp' and x.aggregates(r'messages::CsptpMessage$')]
+    allowed = {M + 'CsptpMessage::deserialize', M + 'CsptpMessage::new_request', M + 'CsptpMessage::new_response', M + 'CsptpMessage::new_follow_up'}
+    ctx.check('CsptpMessage|constructors', set(mk) <= allowed, 'CsptpMessage built in %s' % sorted(set(mk) - allowed), sample=len(mk))
+
+
+def r4(ctx):
+    ctx.rule('C45-R4', 'well-formedness gate: CsptpMessage::deserialize returns Ok only for a parsed PTP message with sdoId 0x300 and major version 2 whose body is a FollowUp, or a '
+             'Sync carrying exactly one request-or-response TLV, all of them valid; CsptpMessage values come only from deserialize and the three builders')
+    wellformed_gate(ctx)
+
+
+RULES = [r1, r2, r3, r4]
+FLOORS = {'C45-R1': 23, 'C45-R2': 25, 'C45-R4': 13}
